@@ -120,3 +120,66 @@ def frame_keys(frame):
 
 def grid_sx(rows, f=str):
     return "(" + " ".join("(" + " ".join(f(v) for v in row) + ")" for row in rows) + ")"
+
+
+# ---------------------------------------------------------------------------------------------------------------------
+# larger boards (program correspondence only: nothing is enumerated there)
+
+MEDIUM_SHAPES = [(6, 9), (9, 6)]
+BIG_TALL = [(17, 16), (18, 15)]                              # more than 256 cells
+BIG_WIDE = [(16, 17), (15, 18)]
+
+
+def big_shapes(rng, n_big=2, tall=None, wide=None):
+    """Shapes for `extra_program_problems`: one clearly non-square medium board, then `n_big` boards with more than 256
+    cells (a tall one, then a wide one; 17 x 16 and 16 x 17 have the same number of cells).  `tall` / `wide`: the module's
+    own lists of large shapes when its Lean model is too slow for > 256 cells."""
+    out = [rng.choice(MEDIUM_SHAPES)]
+    big = [rng.choice(tall or BIG_TALL), rng.choice(wide or BIG_WIDE)]
+    if n_big < 2:
+        big = [rng.choice(big)]
+    return out + big
+
+
+def random_loop(rng, H, W, fill=0.5, thin=0.9):
+    """A random single loop of the H x W lattice of points as a flat answer (canonical edge order), the boundary of a
+    randomly grown set of faces: a face is added only if the boundary is still ONE loop (checked by tracing); a face that
+    touches two or more faces of the set is skipped with probability `thin`, so that the set is tree-like and its boundary
+    a long winding line.  `fill`: share of the faces aimed at.  All False if the lattice has no face."""
+    hor = [[False] * max(W - 1, 0) for _ in range(H)]
+    ver = [[False] * W for _ in range(max(H - 1, 0))]
+    faces = [(fy, fx) for fy in range(H - 1) for fx in range(W - 1)]
+    if faces:
+        def toggle(f):
+            fy, fx = f
+            hor[fy][fx] = not hor[fy][fx]
+            hor[fy + 1][fx] = not hor[fy + 1][fx]
+            ver[fy][fx] = not ver[fy][fx]
+            ver[fy][fx + 1] = not ver[fy][fx + 1]
+
+        def edges():
+            return ([((y, x), (y, x + 1)) for y in range(H) for x in range(W - 1) if hor[y][x]]
+                    + [((y, x), (y + 1, x)) for y in range(H - 1) for x in range(W) if ver[y][x]])
+        start = rng.choice(faces)
+        region = {start}
+        toggle(start)
+        target = max(1, int(len(faces) * fill))
+        members = [start]
+        for _ in range(25 * target):
+            if len(region) >= target:
+                break
+            fy, fx = rng.choice(members)
+            dy, dx = rng.choice(((1, 0), (-1, 0), (0, 1), (0, -1)))
+            f = (fy + dy, fx + dx)
+            if f in region or not (0 <= f[0] < H - 1 and 0 <= f[1] < W - 1):
+                continue
+            touching = sum(1 for ey, ex in ((1, 0), (-1, 0), (0, 1), (0, -1)) if (f[0] + ey, f[1] + ex) in region)
+            if touching >= 2 and rng.random() < thin:
+                continue
+            toggle(f)
+            if trace_loop(edges()) is None:
+                toggle(f)
+            else:
+                region.add(f)
+                members.append(f)
+    return [v for row in hor for v in row] + [v for row in ver for v in row]
